@@ -8,6 +8,7 @@ import Driver.GL
 import Driver.Deps
 import Driver.San
 import GooseVerif.Model.Tr
+import GooseVerif.Model.Scope
 
 def main (args : List String) : IO UInt32 := do
   match args with
@@ -23,6 +24,8 @@ def main (args : List String) : IO UInt32 := do
   | ["cli"] => Driver.lineLoop Driver.Cli.step (); return 0
   | ["gl"] => Driver.lineLoop Driver.GL.step {}; return 0
   | ["tr"] => Driver.lineLoop (fun (_ : Unit) ws => ((), match ws with | u :: toks => GooseVerif.Model.Tr.run u toks | [] => "bad-input")) (); return 0
+  | ["scope"] => Driver.lineLoop (fun (_ : Unit) ws => ((), GooseVerif.Model.Scope.run ws)) (); return 0
+  | ["scopego"] => Driver.lineLoop (fun (_ : Unit) ws => ((), GooseVerif.Model.Scope.runGoToks ws)) (); return 0
   | ["san"] => Driver.lineLoop (fun (_ : Unit) ws => ((), Driver.San.step ws)) (); return 0
   | ["deps"] => Driver.lineLoop (fun (_ : Unit) ws => ((), Driver.Deps.step ws)) (); return 0
   | ["wt"] => Driver.lineLoop Driver.Prim.wtStep (); return 0
